@@ -195,6 +195,36 @@ pub fn check(sh: &Shared, c: &Case) -> Check {
             fail!("budget:iterator-kind", "Budget::try_from_floats({show:?}) gives {wantb:?} from a Vec iterator but {varb:?} from a filtered iterator");
         }
     }
+    // "as many components as were supplied": what an iterator supplies ends at its FIRST None.
+    // A non-fused iterator (from_fn over tokens, a channel, a parser that resumes after a
+    // non-number) may yield again afterwards; those later items were not supplied.
+    for cut in 0..=v.len().min(3) {
+        let script = |cut: usize| {
+            let vv = v.clone();
+            let mut i = 0usize;
+            let mut gap_done = false;
+            std::iter::from_fn(move || {
+                if i == cut && !gap_done {
+                    gap_done = true;
+                    return None;
+                }
+                let r = vv.get(i).copied();
+                i += 1;
+                r
+            })
+        };
+        let dbg = |r: Option<String>| r.unwrap_or_else(|| "panic".into());
+        let want_t = dbg(guard(|| Truth::try_from_floats(v[..cut].to_vec().into_iter())).ok().map(|r| format!("{:?}", r.map_err(|_| ()))));
+        let got_t = dbg(guard(|| Truth::try_from_floats(script(cut))).ok().map(|r| format!("{:?}", r.map_err(|_| ()))));
+        if want_t != got_t {
+            fail!("truth:polled-after-end", "Truth::try_from_floats over an iterator that yields {:?}, then None, then {:?}: got {got_t}, but the supplied sequence {:?} gives {want_t}", &show[..cut], &show[cut..], &show[..cut]);
+        }
+        let want_b = dbg(guard(|| Budget::try_from_floats(v[..cut].to_vec().into_iter())).ok().map(|r| format!("{:?}", r.map_err(|_| ()))));
+        let got_b = dbg(guard(|| Budget::try_from_floats(script(cut))).ok().map(|r| format!("{:?}", r.map_err(|_| ()))));
+        if want_b != got_b {
+            fail!("budget:polled-after-end", "Budget::try_from_floats over an iterator that yields {:?}, then None, then {:?}: got {got_b}, but the supplied sequence {:?} gives {want_b}", &show[..cut], &show[cut..], &show[..cut]);
+        }
+    }
     // ---- Budget
     sh.eval();
     let consumed_ok = v.iter().take(3).all(|x| in01(*x));
